@@ -292,6 +292,8 @@ class TlSchemas:
                     if 'vector' in type_:
                         length = int.from_bytes(data[i:i + 4], 'little', signed=False)
                         i += 4
+                        if length > len(data) - i:  # every element takes at least one byte: never loop past the input
+                            raise TlError(f'vector length {length} exceeds the {len(data) - i} bytes left')
                         result[field] = []
                         for _ in range(length):
                             if sch:
